@@ -305,6 +305,9 @@ func c15Run(c *engine.Ctx) {
 					continue
 				}
 				c.Eval()
+				if oi%64 == 0 {
+					c.Outcome(fmt.Sprintf("exit status %d", c15Model(q, o, st).status))
+				}
 				if msg := c15Check(q, o, st); msg != "" {
 					c.Violation(key, "command-model", map[string]any{"query": q, "stream": st, "opts": oi, "why": msg})
 				}
